@@ -88,6 +88,9 @@ def load_known_findings():
     return known
 
 
+SKIPPED = object()
+
+
 class Violation:
     def __init__(self, rule, key, where, msg, detail=None):
         self.rule = rule          # rule id, e.g. "C06.W1"
@@ -115,6 +118,7 @@ class Report:
         self.assumptions = []
         self.configs = []
         self.extra = {}
+        self.deferred = []
 
     def inst(self, rule, what, **kw):
         d = {"rule": rule, "what": what}
@@ -126,6 +130,20 @@ class Report:
 
     def violate(self, rule, key, where, msg, **detail):
         self.violations.append(Violation(rule, key, where, msg, detail))
+
+    def guard(self, fn, *args, **kw):
+        """Run one rule group; an infrastructure failure inside it is deferred so that the other groups still run.
+        A deferred failure makes the check exit 2 unless a violation was found (a violation is a violation whatever
+        else could not be analysed). Returns SKIPPED if the group did not complete."""
+        try:
+            return fn(*args, **kw)
+        except Infra as e:
+            self.deferred.append(str(e))
+        except Exception as e:            # analyser crash inside one rule group
+            import traceback
+            traceback.print_exc()
+            self.deferred.append("analyser crashed in %s: %s: %s" % (getattr(fn, "__name__", "?"), type(e).__name__, e))
+        return SKIPPED
 
     def floor(self, rule, n_found, n_expected, what):
         """Vacuity floor: fail closed if a rule matched fewer instances than
@@ -192,17 +210,31 @@ def finish(report, level, coverage, assumptions=None):
     return 0
 
 
+def _new_violations(rep):
+    known = load_known_findings()
+    return [v for v in rep.violations if (rep.prop, v.key) not in known]
+
+
 def run_check(prop, tier, fn):
     """fn(report) -> (level, coverage, assumptions). Handles Infra."""
     rep = Report(prop, tier)
     try:
         level, coverage, assumptions = fn(rep)
     except Infra as e:
-        print("INFRA-ERROR property=%s: %s" % (prop, e), file=sys.stderr)
-        return 2
+        rep.deferred.append(str(e))
+        level, coverage, assumptions = "other", {"explanation": "analysis did not complete", "evaluations": len(rep.instances)}, []
     except Exception as e:      # a crash of the analyser is never a verdict on /repo
         import traceback
         traceback.print_exc()
-        print("INFRA-ERROR property=%s: analyser crashed: %s: %s" % (prop, type(e).__name__, e), file=sys.stderr)
-        return 2
+        rep.deferred.append("analyser crashed: %s: %s" % (type(e).__name__, e))
+        level, coverage, assumptions = "other", {"explanation": "analysis did not complete", "evaluations": len(rep.instances)}, []
+    if rep.deferred:
+        if not _new_violations(rep):
+            print("INFRA-ERROR property=%s: %s" % (prop, rep.deferred[0]), file=sys.stderr)
+            return 2
+        # part of the analysis could not be completed, but what did complete found a violation: report it
+        coverage = dict(coverage)
+        coverage["incomplete"] = rep.deferred
+        for d in rep.deferred:
+            print("  note: part of the analysis did not complete: %s" % d[:300])
     return finish(rep, level, coverage, assumptions)
